@@ -124,6 +124,19 @@ type Scen struct {
 	Parent  *Shared
 	Idx     int
 	Foreign map[string]bool // keys other parties put into the shared tree
+	used    map[string]int
+}
+
+// Quota: in the quick tier the expensive per-path families run for the first n paths of a scenario only.
+func (e *Env) Quota(s *Scen, name string, n int) bool {
+	if e.Cfg.Thorough() {
+		return true
+	}
+	if s.used == nil {
+		s.used = map[string]int{}
+	}
+	s.used[name]++
+	return s.used[name] <= n
 }
 
 type Env struct {
@@ -542,7 +555,7 @@ func (e *Env) twinQueries(s *Scen) {
 // each Path must still denote what it was built from.
 func (e *Env) ArgSliceChecks(s *Scen, member []any) {
 	n := len(member)
-	if n == 0 {
+	if n == 0 || !e.Quota(s, "argslice", 2) {
 		return
 	}
 	type built struct {
@@ -610,6 +623,9 @@ func (e *Env) ArgSliceChecks(s *Scen, member []any) {
 // BuildChecks: a member path assembled with NewPath + Append + Prepend in every split, and copies of
 // a Path value mutated independently, must have the same parts, key and proof as the path built in one go.
 func (e *Env) BuildChecks(s *Scen, parts []any) {
+	if !e.Quota(s, "build", 2) {
+		return
+	}
 	n := len(parts)
 	one, err := s.opts().NewPath(parts...)
 	if err != nil || n == 0 {
@@ -640,6 +656,20 @@ func (e *Env) BuildChecks(s *Scen, parts []any) {
 			if i == probe && (j == i || j == n) {
 				e.ProofPath(s, 0, p, "built")
 			}
+			// the same with the path USED between the steps (a stale memo of the key must not survive)
+			m, _ := s.opts().NewPath(parts[i:j]...)
+			_, _ = m.MtEntry()
+			_ = m.Append(parts[j:]...)
+			if j > i || j < n {
+				_, _, _ = s.Mz.Proof(context.Background(), m)
+			}
+			_ = m.Prepend(parts[:i]...)
+			mk, merr := m.MtEntry()
+			if !same(m.Parts()) || merr != nil || mk.Cmp(k1) != 0 {
+				e.Rep.Fail(e.Prop+"-path-build-key", fmt.Sprintf("NewPath(%v), MtEntry, Append(%v), Proof, Prepend(%v): parts %v / key differ from the path built in one go", parts[i:j], parts[j:], parts[:i], m.Parts()), in)
+			} else if i == probe && i > 0 {
+				e.ProofPath(s, 0, m, "built")
+			}
 			// copies mutated independently: the original must not change
 			if j < n || i > 0 {
 				q, _ := s.opts().NewPath(parts[i:j]...)
@@ -656,6 +686,44 @@ func (e *Env) BuildChecks(s *Scen, parts []any) {
 					e.Rep.Fail(e.Prop+"-path-build-order", fmt.Sprintf("Prepend(a, 7) then Prepend(c) on a copy gives %v", c1.Parts()), in)
 				}
 			}
+		}
+	}
+}
+
+// MutationBuilt: the path assembled child first by single-part Prepends, or root first by single-part
+// Appends, with MtEntry / Entry / JSONLDType calls between the steps; then the full Proof oracle.
+func (e *Env) MutationBuilt(s *Scen, parts []any, family string) {
+	n := len(parts)
+	if n < 2 || !e.Quota(s, "mutation:"+family, 2) {
+		return
+	}
+	one, err := s.opts().NewPath(parts...)
+	if err != nil {
+		return
+	}
+	k1, kerr := one.MtEntry()
+	in := map[string]any{"scenario": s.In, "path": parts, "pk": 0, "family": family}
+	pre, _ := s.opts().NewPath(parts[n-1])
+	for i := n - 2; i >= 0; i-- {
+		_, _ = pre.MtEntry()
+		_, _ = s.Mz.Entry(pre)
+		_ = pre.Prepend(parts[i])
+	}
+	app, _ := s.opts().NewPath(parts[0])
+	for i := 1; i < n; i++ {
+		_, _ = app.MtEntry()
+		_, _ = s.Mz.JSONLDType(app)
+		_ = app.Append(parts[i])
+	}
+	for wi, p := range []merklize.Path{pre, app} {
+		e.Rep.Count("path-built-by-mutation")
+		k, err := p.MtEntry()
+		if fmt.Sprintf("%#v", p.Parts()) != fmt.Sprintf("%#v", parts) {
+			e.Rep.Fail(e.Prop+"-path-build-order", fmt.Sprintf("path built by single-part %s has parts %v, expected %v", []string{"Prepends", "Appends"}[wi], p.Parts(), parts), in)
+		} else if (err == nil) != (kerr == nil) || (err == nil && k.Cmp(k1) != 0) {
+			e.Rep.Fail(e.Prop+"-path-build-key", fmt.Sprintf("path %v built by single-part %s with lookups between the steps hashes differently from the path built in one go", parts, []string{"Prepends", "Appends"}[wi]), in)
+		} else {
+			e.ProofPath(s, 0, p, family)
 		}
 	}
 }
@@ -1420,7 +1488,7 @@ func (e *Env) c02Scenario(in Input) *Scen {
 		e.twinQueries(s)
 	}
 	// ALL member paths
-	for _, v := range s.Entries {
+	for vi, v := range s.Entries {
 		pk := 0
 		if !s.Cfg && e.Cfg.Rng.Intn(3) == 0 {
 			pk = 1 // merklize.NewPath: same (default) hasher when none is configured
@@ -1430,7 +1498,9 @@ func (e *Env) c02Scenario(in Input) *Scen {
 		if len(v.Parts) <= 5 {
 			e.BuildChecks(s, v.Parts)
 		}
+		_ = vi
 		e.ArgSliceChecks(s, v.Parts)
+		e.MutationBuilt(s, v.Parts, "built")
 	}
 	// the print-twins again (or for the first time) after every member was looked up
 	e.twinQueries(s)
@@ -1447,6 +1517,7 @@ func (e *Env) c02Scenario(in Input) *Scen {
 			if e.Cfg.Rng.Intn(2) == 0 {
 				e.EntryStep(s, 0, parts)
 			}
+			e.MutationBuilt(s, parts, "built-"+fam)
 		}
 	}
 	// paths the merklizer resolves from the document itself
